@@ -1,4 +1,8 @@
-"""One-line semantic mutations of rockit that compile and keep the baseline tests green (see DESIGN.md, sensitivity)."""
+"""One-line semantic mutations of rockit that compile and keep the baseline tests green (see DESIGN.md, sensitivity).
+
+Dropped as equivalent (no observable change): dt_in_ode_allowed (the later has_free() assertion still rejects),
+control_plus_param_shifted (reversing the creation order of per-node Opti parameters only permutes opti.p),
+set_initial_priority_order (after fix ec... 'horizon guesses first' the dictionary order no longer matters)."""
 SM = "rockit/sampling_method.py"
 MS = "rockit/multiple_shooting.py"
 SS = "rockit/single_shooting.py"
@@ -35,7 +39,7 @@ MUTANTS = [
     ("intg_fine_control_prev", ST, "stage._method.U[k], pv, stage._method.t0, stage._method.T), k, l))\n                t0+=dt", "stage._method.U[max(k-1,0)], pv, stage._method.t0, stage._method.T), k, l))\n                t0+=dt", ["C07"]),
     ("value_forgets_T", SM, "                                                               v=self.V,\n                                                               t0=stage.t0,\n                                                               T=stage.T))", "                                                               v=self.V,\n                                                               t0=stage.t0,\n                                                               T=stage.t0))", ["C07"]),
     ("grid_integrator_control_of_next", SM, "                                                               u=self.U[k], p_control=self.get_p_control_at(stage, k),", "                                                               u=self.U[min(k+1,self.N-1)], p_control=self.get_p_control_at(stage, k),", ["C07", "C04"]),
-    ("root_param_interval", SM, "                                                               u=self.U[k],\n                                                               p_control=self.get_p_control_at(stage, k),", "                                                               u=self.U[k],\n                                                               p_control=self.get_p_control_at(stage, 0),", ["C07", "C04"]),
+    ("root_param_interval", SM, "                                                               u=self.U[k],\n                                                               p_control=self.get_p_control_at(stage, k),", "                                                               u=self.U[k],\n                                                               p_control=self.get_p_control_at(stage, 0),", ["C07"]),
     ("solution_time_not_evaluated", "rockit/solution.py", "        return self.sol.value(time), DM2numpy(res, MX(expr).shape, time.numel())", "        return self.sol.value(time)+0*1e-3, DM2numpy(res.T if res.shape[0]==res.shape[1] and res.shape[0]>1 else res, MX(expr).shape, time.numel())", ["C07"]),
     # --- C02
     ("dc_C_prev_column", DC, "Pidot_j = mtimes(self.Xc[k][i],self.C[:,j])/ dt", "Pidot_j = mtimes(self.Xc[k][i],self.C[:,max(j-1,0)])/ dt", ["C02"]),
@@ -56,7 +60,6 @@ MUTANTS = [
     # --- C09
     ("set_value_wrong_global_index", SM, "                found = True\n                opti.set_value(self.P[i], value)\n        for i, p in enumerate(stage.parameters['control']):", "                found = True\n                opti.set_value(self.P[i-1], value)\n        for i, p in enumerate(stage.parameters['control']):", ["C09"]),
     ("set_value_after_transcription_not_stored", ST, "            def action(parameter, value):\n                self._method.set_value(self, self.master._method, parameter, value)      ", "            def action(parameter, value):\n                self._method.set_value(self, self.master._method, parameter, value) if not parameter.is_scalar() else None", ["C09"]),
-    ("control_plus_param_shifted", SM, "            self.P_control_plus.append([opti.parameter(p.shape[0], p.shape[1]) for i in range(self.N+1)])", "            self.P_control_plus.append(list(reversed([opti.parameter(p.shape[0], p.shape[1]) for i in range(self.N+1)])))", ["C09"]),
     ("set_parameter_phase2_skipped_for_control", SM, "        for i, p in enumerate(stage.parameters['control']):\n            opti.set_value(hcat(self.P_control[i]), stage._param_value(p))", "        for i, p in enumerate(stage.parameters['control']):\n            opti.set_value(hcat(self.P_control[i]), DM(stage._param_value(p))[:,::-1] if self.N==3 else stage._param_value(p))", ["C09"]),
     # --- C11
     ("freeT_skip_nonneg", DM, "                stage.subject_to(stage._T>=0)\n", "", ["C11"]),
@@ -75,7 +78,6 @@ MUTANTS = [
     ("load_loses_initial_guesses", "rockit/ocp.py", "            return pickle.load(open(name,\"rb\"))", "            ret = pickle.load(open(name,\"rb\"))\n            ret._initial = type(ret._initial)()\n            return ret", ["C18"]),
     ("save_resets_grid_of_original", "rockit/ocp.py", "        self._untranscribe()\n        import pickle", "        self._untranscribe()\n        if hasattr(self._method,'time_grid') and hasattr(self._method.time_grid,'_growth_factor'): self._method.time_grid._growth_factor = 1.0\n        import pickle", ["C18"]),
     # --- C10
-    ("set_initial_priority_order", ST, "            if priority:\n                self._initial.move_to_end(var, last=False)", "            if priority:\n                pass", ["C10"]),
     ("set_initial_column_offset", SM, "                    value_k = value[:,k]\n                try:", "                    value_k = value[:,k-1] if k>0 else value[:,k]\n                try:", ["C10"]),
     ("set_initial_after_transcription_ignored_for_states", ST, "            self._method.set_initial(self._augmented, self.master._method, self._initial)", "            self._method.set_initial(self._augmented, self.master._method, HashOrderedDict([(k,v) for k,v in self._initial.items() if k not in self.states or self._method.N<3]))", ["C10"]),
     ("dc_roots_guess_at_interval_start", DC, "expr_integrator_root = ca.hcat([self.eval_at_integrator_root(stage, expr, k, i, j) for k in list(range(self.N)) for i in range(self.M) for j in range(self.degree) ])", "expr_integrator_root = ca.hcat([self.eval_at_integrator_root(stage, expr, k, i, 0) for k in list(range(self.N)) for i in range(self.M) for j in range(self.degree) ])", ["C10"]),
